@@ -42,14 +42,14 @@ def check_encoder(res, kind, obj, seq, margin, assign=True):
         got = obj.get_time_list_for_gannt_chart(finish_margin=margin)
     except Exception as e:
         ei = exc_info(e)
-        res.violate("C19", "C19/gantt-encoder-raises:%s:%s" % (kind, ei["type"]), "%s log %s margin %r raised %s" % (kind, [s.name for s in seq], margin, ei["msg"]))
+        res.violate("C19", "C19/gantt-encoder-raises:%s:%s" % (kind, ei["type"]), "%s log %s margin %r raised %s" % (kind, [getattr(s, "name", s) for s in seq], margin, ei["msg"]))
         return False
     res.count("C19.encoder_checks")
     for lst, st in zip(got, targets):
         exp = rle(seq, st, margin)
         if list(map(tuple, lst)) != exp:
             res.violate("C19", "C19/gantt-intervals:%s:%s" % (kind, st.name),
-                        "%s log %s, margin %r: %s intervals %r, maximal runs are %r" % (kind, [s.name for s in seq], margin, st.name, lst, exp))
+                        "%s log %s, margin %r: %s intervals %r, maximal runs are %r" % (kind, [getattr(s, "name", s) for s in seq], margin, st.name, lst, exp))
             return False
     return True
 
@@ -93,6 +93,12 @@ def random_part(case, res):
         while len(seq) < n:
             seq.extend([rng.choice(states)] * rng.randint(1, 6))
         seq = seq[:n]
+        if rng.random() < 0.15:
+            # equal values, other objects: plain ints (a log taken over without conversion) or the sibling enum
+            # (the library itself stores BaseWorkerState members in facility logs when it appends a saved log)
+            sib = {"task": CS, "component": TS, "worker": FS_, "facility": WS}[kind]
+            seq = [int(x) if rng.random() < 0.5 else sib(int(x)) for x in seq]
+            res.count("C19.encoder_logs_with_equal_but_foreign_members")
         margin = rng.choice(MARGINS)
         obj = mk()
         if not check_encoder(res, kind, obj, seq, margin):
